@@ -21,7 +21,7 @@ import (
 
 func init() {
 	Register(&Prop{
-		ID: "C06", Engine: "B", Quick: 100000, Thorough: 5000000, Level: "exploration",
+		ID: "C06", Engine: "B", AltEvery: 4, Quick: 100000, Thorough: 5000000, Level: "exploration",
 		Rule:     "each case = a valid encoding (a block of drawn columns for typed or inferred targets, a single column, or a protocol message incl. the server-side decoders Query/ClientInfo/ClientHello) damaged in transit by one to three drawn faults: a count/length/offset/key/meta/flag field located by a traced parse of the independent codec overwritten with 0, 1, 127/128, 2^16+-1, 2^31, 2^63-1, 2^64-1 or the value +-1; bit flips; a segment duplicated, dropped or swapped; two encodings glued together; decoded in a worker process that runs under an address-space limit (ulimit -v) with the library's row cap lowered in the scratch copy; oracle = no panic (recovered and attributed to the innermost library frame), no process death (attributed by the parent to the case in progress), bounded allocation, and on success every column reports the block's row count and every row accessor works for every index; distinct = distinct damaged streams; non-trivial = the damaged stream differs from the valid one",
 		Run:      runC06,
 		SlowCase: 60 * time.Second, // a 16 MB type string takes the library seconds to refuse
